@@ -21,5 +21,5 @@ for c in $CHECKS; do case $c in C08|C10|C13|C14|C15|C18|C19) NEEDBIN=1;; C07) NE
 for c in $CHECKS; do
   out=$(VERIF_ROOT=$S/root VERIF_BIN=$S/bin VERIF_SEED=${VERIF_SEED:-1} timeout 3000 $S/bin/check $c quick 2>&1); rc=$?
   keys=$(echo "$out" | grep -E "^  key=" | sort | uniq -c | sort -rn | head -3 | sed 's/^ *//' | tr '\n' ';')
-  echo "RESULT $M vs $c: rc=$rc $keys" | tee -a /verif/seeded/matrix_runs.log
+  echo "RESULT $M vs $c: rc=$rc $keys" | tee -a /verif/seeded/matrix_runs.txt
 done
